@@ -6,6 +6,7 @@
 
 mod c10;
 mod c10_app;
+mod c10_large;
 mod c10_typegen;
 mod c17;
 mod c19;
